@@ -36,7 +36,14 @@ func genXzStream(rng *rand.Rand, dp *DriverPool, maxOps int) (stream, content []
 			nch = 0 // empty block: just the end marker
 		}
 		specs, kinds := genChunks(g, nch, maxOps)
-		toks = append(toks, "B", fmt.Sprint(rng.Intn(3)*rng.Intn(2)), fmt.Sprint(rng.Intn(2)), fmt.Sprint(rng.Intn(2)), fmt.Sprint(dc))
+		ep, wcs, wus := rng.Intn(3)*rng.Intn(2), rng.Intn(2), rng.Intn(2)
+		if rng.Intn(8) == 0 {
+			// long header padding up to the format's maximum: without size fields the header is 12 bytes
+			// before padding, so 253 extra words give the largest legal header (1024 bytes, size byte 0xff)
+			wcs, wus = 0, 0
+			ep = 253 - rng.Intn(2)*rng.Intn(250)
+		}
+		toks = append(toks, "B", fmt.Sprint(ep), fmt.Sprint(wcs), fmt.Sprint(wus), fmt.Sprint(dc))
 		toks = append(toks, specs...)
 		toks = append(toks, "eos/-/-")
 		allContent = append(allContent, g.content...)
